@@ -38,3 +38,121 @@ def _(self):
               and keys_du(old(self.yaml_node).pairs, self.yaml_node.pairs,
                           _i)
               and scalar_keys(old(self.yaml_node).pairs, _i))
+
+
+@contract("yatiml/helpers.py::Node.map_attribute_to_index")
+def _(self, attribute, key_attribute, value_attribute):
+    properties('C15')
+    sort('value_attribute', 'PV')
+    sort('new_value', 'Seq[YPair]')
+    requires(self.yaml_node.kind == MAP)
+    requires(pv_is_none(value_attribute) or pv_is_str(value_attribute))
+    modifies(self.yaml_node)
+    # an attribute given twice is reported (Node.get_attribute)
+    raises(SeasoningError, when=cnt(self.yaml_node.pairs, attribute,
+                                    len(self.yaml_node.pairs)) > 1)
+    # attribute missing or not a mapping: nothing happens at all
+    ensures(implies(
+        not has(old(self.yaml_node), attribute)
+        or first_value(old(self.yaml_node), attribute).kind != MAP,
+        self.yaml_node == old(self.yaml_node)))
+    # otherwise only that attribute's value changes: same keys in the same
+    # order, each value turned into a mapping that also holds the key
+    ensures(implies(
+        has(old(self.yaml_node), attribute)
+        and first_value(old(self.yaml_node), attribute).kind == MAP,
+        same_header(self.yaml_node, old(self.yaml_node))
+        and self.yaml_node.pairs == seq_update(
+            old(self.yaml_node).pairs, at(old(self.yaml_node), attribute),
+            P(old(self.yaml_node).pairs[at(old(self.yaml_node), attribute)].k,
+              with_pairs(
+                  first_value(old(self.yaml_node), attribute),
+                  m2i_pairs(first_value(old(self.yaml_node), attribute).pairs,
+                            key_attribute, value_attribute,
+                            len(first_value(old(self.yaml_node),
+                                            attribute).pairs)))))))
+    invariant(0, lambda _i: same_header(self.yaml_node, old(self.yaml_node))
+              and has(old(self.yaml_node), attribute)
+              and first_value(old(self.yaml_node), attribute).kind == MAP
+              and _i <= len(first_value(old(self.yaml_node), attribute).pairs)
+              and self.yaml_node.pairs == seq_update(
+                  old(self.yaml_node).pairs,
+                  at(old(self.yaml_node), attribute),
+                  P(old(self.yaml_node).pairs[
+                      at(old(self.yaml_node), attribute)].k,
+                    with_pairs(
+                        first_value(old(self.yaml_node), attribute),
+                        m2i_mid(first_value(old(self.yaml_node),
+                                            attribute).pairs,
+                                key_attribute, _i)
+                        + first_value(old(self.yaml_node),
+                                      attribute).pairs[_i:])))
+              and new_value == m2i_pairs(
+                  first_value(old(self.yaml_node), attribute).pairs,
+                  key_attribute, value_attribute, _i))
+
+
+@contract("yatiml/helpers.py::Node.index_attribute_to_map")
+def _(self, attribute, key_attribute, value_attribute):
+    properties('C15')
+    sort('value_attribute', 'PV')
+    sort('new_value', 'Seq[YPair]')
+    requires(self.yaml_node.kind == MAP)
+    requires(pv_is_none(value_attribute) or pv_is_str(value_attribute))
+    modifies(self.yaml_node)
+    raises(SeasoningError, when=cnt(self.yaml_node.pairs, attribute,
+                                    len(self.yaml_node.pairs)) > 1)
+    # not applicable (missing, not a mapping, some value not a mapping):
+    # nothing happens at all
+    ensures(implies(
+        not has(old(self.yaml_node), attribute)
+        or first_value(old(self.yaml_node), attribute).kind != MAP
+        or not all_maps(first_value(old(self.yaml_node), attribute).pairs,
+                        len(first_value(old(self.yaml_node),
+                                        attribute).pairs)),
+        self.yaml_node == old(self.yaml_node)))
+    ensures(implies(
+        has(old(self.yaml_node), attribute)
+        and first_value(old(self.yaml_node), attribute).kind == MAP
+        and all_maps(first_value(old(self.yaml_node), attribute).pairs,
+                     len(first_value(old(self.yaml_node), attribute).pairs)),
+        same_header(self.yaml_node, old(self.yaml_node))
+        and self.yaml_node.pairs == seq_update(
+            old(self.yaml_node).pairs, at(old(self.yaml_node), attribute),
+            P(old(self.yaml_node).pairs[at(old(self.yaml_node), attribute)].k,
+              with_pairs(
+                  first_value(old(self.yaml_node), attribute),
+                  i2m_pairs(first_value(old(self.yaml_node), attribute).pairs,
+                            key_attribute, value_attribute,
+                            len(first_value(old(self.yaml_node),
+                                            attribute).pairs)))))))
+    invariant(0, lambda _i: self.yaml_node == old(self.yaml_node)
+              and _i <= len(first_value(old(self.yaml_node), attribute).pairs)
+              and all_maps(first_value(old(self.yaml_node), attribute).pairs,
+                           _i))
+    invariant(1, lambda _i: same_header(self.yaml_node, old(self.yaml_node))
+              and has(old(self.yaml_node), attribute)
+              and first_value(old(self.yaml_node), attribute).kind == MAP
+              and all_maps(first_value(old(self.yaml_node), attribute).pairs,
+                           len(first_value(old(self.yaml_node),
+                                           attribute).pairs))
+              and _i <= len(first_value(old(self.yaml_node), attribute).pairs)
+              and all_maps(first_value(old(self.yaml_node), attribute).pairs,
+                           _i)
+              and self.yaml_node.pairs == seq_update(
+                  old(self.yaml_node).pairs,
+                  at(old(self.yaml_node), attribute),
+                  P(old(self.yaml_node).pairs[
+                      at(old(self.yaml_node), attribute)].k,
+                    with_pairs(
+                        first_value(old(self.yaml_node), attribute),
+                        i2m_mid(first_value(old(self.yaml_node),
+                                            attribute).pairs,
+                                key_attribute, _i)
+                        + first_value(old(self.yaml_node),
+                                      attribute).pairs[_i:])))
+              and new_value == i2m_pairs(
+                  first_value(old(self.yaml_node), attribute).pairs,
+                  key_attribute, value_attribute, _i))
+    invariant(2, lambda _i, _acc: _i <= len(value_node.pairs)
+              and _acc == without_key(value_node.pairs, key_attribute, _i))
